@@ -9,12 +9,15 @@ package protocol_test
 
 import (
 	"bytes"
+	"context"
 	"encoding/binary"
 	"encoding/hex"
 	"fmt"
 	"math"
 	"math/rand"
 	"os"
+	"reflect"
+	"runtime"
 	"strconv"
 	"strings"
 	"testing"
@@ -24,6 +27,7 @@ import (
 
 	"github.com/valyala/bytebufferpool"
 
+	protocol "github.com/hujm2023/go-sms-protocol"
 	"github.com/hujm2023/go-sms-protocol/datacoding"
 )
 
@@ -498,4 +502,245 @@ func TestValidator_TOK(t *testing.T) {
 		rec(0)
 		ok(t, "A-TOK", n, fmt.Sprintf("key spelling set %v: a random eighth of the 8! orders x all 255 non-empty subsets, values drawn from %d adversarial space-free strings", keys, len(good)))
 	}
+}
+
+// ---------------------------------------------------------------------------------------------------------------------
+// BOUNDED stand-in for BatchDataCodingEncoder.Build (C09). Build's body (map iteration, goroutines, lo.Filter, sort.Sort)
+// is outside the verifier's subset; its building blocks (priorities, comparators, Less, per-candidate Run, Result) are
+// proved. Here every request of a finite family is run against an independent oracle: the winner is the candidate that
+// can represent the content with the fewest parts, ties broken by the documented priority; UCS-2 fallback when none can;
+// an error only when nothing can or the request is empty; and the answer does not depend on candidate order,
+// duplicates or GOMAXPROCS.
+
+type bcand struct {
+	coding int
+	parts  int
+	ok     bool
+}
+
+func gsmSeptets(s string) ([]byte, bool) {
+	out := []byte{}
+	// independent of the library's tables: use the library's own unpacked codec only to learn the septets of one rune
+	for _, r := range s {
+		e, err := datacoding.GSM7Unpacked(string(r)).Encode()
+		if err != nil {
+			return nil, false
+		}
+		out = append(out, e...)
+	}
+	return out, true
+}
+
+func packedParts(septets []byte) int {
+	if len(septets) <= 160 {
+		return 1
+	}
+	n, begin := 0, 0
+	for begin < len(septets) {
+		end := begin + 153
+		if end >= len(septets) {
+			end = len(septets)
+		} else if septets[end-1] == 0x1B {
+			end--
+		}
+		begin = end
+		n++
+	}
+	return n
+}
+
+func oracleCand(proto string, coding int, content string) bcand {
+	c := bcand{coding: coding}
+	var enc []byte
+	var err error
+	max, per := 140, 134
+	switch {
+	case proto == "CMPP" && coding == 0, proto == "SMPP" && coding == 1:
+		enc, err = datacoding.Ascii(content).Encode()
+	case proto == "CMPP" && (coding == 8 || coding == 9), proto == "SMPP" && coding == 8:
+		enc, err = datacoding.UCS2(content).Encode()
+	case proto == "CMPP" && coding == 15:
+		enc, err = datacoding.GB18030(content).Encode()
+	case proto == "SMPP" && coding == 3:
+		enc, err = datacoding.Latin1(content).Encode()
+	case proto == "SMPP" && coding == 0:
+		enc, err = datacoding.GSM7Unpacked(content).Encode()
+		max, per = 160, 153
+	case proto == "SMPP" && coding == 99:
+		s, ok := gsmSeptets(content)
+		if !ok {
+			return c
+		}
+		c.parts = packedParts(s)
+		c.ok = c.parts <= 255
+		return c
+	default:
+		return c // not a coding of this protocol
+	}
+	if err != nil {
+		return c
+	}
+	if len(enc) <= max {
+		c.parts, c.ok = 1, true
+		return c
+	}
+	c.parts = (len(enc) + per - 1) / per
+	c.ok = c.parts <= 255
+	return c
+}
+
+var bprio = map[string]map[int]int{
+	"CMPP": {9: 1, 8: 2, 15: 3, 0: 4},
+	"SMPP": {8: 1, 0: 2, 3: 3, 1: 4, 99: 5},
+}
+
+func TestValidator_BUILD(t *testing.T) {
+	quick := os.Getenv("VERIF_VALIDATOR_QUICK") != ""
+	ctx := context.Background()
+	long := func(s string, n int) string { return strings.Repeat(s, n) }
+	contents := []string{
+		"hello", "price 10$ {ok}", long("a", 160), long("a", 161), long("a", 153*2), long("a", 306) + "[", long("[", 77), long("[", 80),
+		"ñandú", "Ýes", "你好", long("你", 70), long("你", 71), long("你好吗", 50), "hi 😀", long("😀", 40), "mixé 你", "a\r", long("a", 159) + "\r",
+		long("a", 134*255), long("a", 134*255+1), long("a", 153*255+1), "@", "@@@@@@@@", "1234567@", "€", long("€", 81),
+	}
+	if quick {
+		contents = []string{"hello", long("a", 161), long("a", 306) + "[", long("[", 80), "ñandú", "Ýes", "你好", long("你", 71), "hi 😀", long("a", 134*255+1), "1234567@", long("€", 81)}
+	}
+	protos := map[string][]int{"CMPP": {0, 8, 9, 15}, "SMPP": {0, 1, 3, 8, 99}}
+	mk := func(proto string, c int) datacoding.ProtocolDataCoding {
+		if proto == "CMPP" {
+			return datacoding.CMPPDataCoding(c)
+		}
+		return datacoding.SMPPDataCoding(c)
+	}
+	n := 0
+	rnd := rand.New(rand.NewSource(10))
+	for _, proto := range []string{"CMPP", "SMPP"} {
+		all := protos[proto]
+		for mask := 1; mask < 1<<len(all); mask++ {
+			var set []int
+			for i, c := range all {
+				if mask&(1<<i) != 0 {
+					set = append(set, c)
+				}
+			}
+			origins := []int{-1, all[rnd.Intn(len(all))], 7}
+			if !quick {
+				origins = append([]int{-1, 7}, all...)
+			}
+			for _, origin := range origins {
+				for _, content := range contents {
+					// oracle
+					cands := map[int]bool{}
+					for _, c := range set {
+						cands[c] = true
+					}
+					if origin >= 0 && origin != 7 {
+						cands[origin] = true
+					}
+					best := bcand{}
+					found := false
+					for c := range cands {
+						oc := oracleCand(proto, c, content)
+						if !oc.ok {
+							continue
+						}
+						if !found || oc.parts < best.parts || (oc.parts == best.parts && bprio[proto][c] < bprio[proto][best.coding]) {
+							best, found = oc, true
+						}
+					}
+					wantErr := false
+					if !found {
+						fb := oracleCand(proto, 8, content)
+						if fb.ok {
+							best, found = fb, true
+						} else {
+							wantErr = true
+						}
+					}
+					// the request, in three presentations
+					variants := [][]int{set}
+					sh := append([]int(nil), set...)
+					rnd.Shuffle(len(sh), func(i, j int) { sh[i], sh[j] = sh[j], sh[i] })
+					variants = append(variants, sh, append(append([]int(nil), sh...), set...))
+					var first string
+					for vi, v := range variants {
+						var dcs []datacoding.ProtocolDataCoding
+						for _, c := range v {
+							dcs = append(dcs, mk(proto, c))
+						}
+						b := protocol.NewBatchDataCodingEncoder().Protocol(protocol.Protocol(proto)).Content(content, 7).DataCodings(dcs)
+						if origin >= 0 {
+							b = b.OriginDataCoding(mk(proto, origin))
+						}
+						if vi == 2 {
+							old := runtime.GOMAXPROCS(1 + rnd.Intn(16))
+							defer runtime.GOMAXPROCS(old)
+						}
+						parts, coding, err := b.Build(ctx)
+						n++
+						desc := fmt.Sprintf("protocol=%s candidates=%v origin=%d content=%+q", proto, v, origin, content)
+						if len(content) > 60 {
+							desc = fmt.Sprintf("protocol=%s candidates=%v origin=%d content=%+q...(%d octets)", proto, v, origin, content[:24], len(content))
+						}
+						if wantErr {
+							if err == nil {
+								t.Logf("VALIDATOR-FAIL C09-BUILD %s: no candidate and not UCS-2 can represent it, but Build returned coding %v with %d parts", desc, coding, len(parts))
+								t.FailNow()
+							}
+							continue
+						}
+						if err != nil {
+							t.Logf("VALIDATOR-FAIL C09-BUILD %s: expected coding %d with %d parts, Build returned error %v", desc, best.coding, best.parts, err)
+							t.FailNow()
+						}
+						if coding == nil || coding.ToInt() != mk(proto, best.coding).ToInt() || int(reflect.ValueOf(coding).Int()) != best.coding || len(parts) != best.parts {
+							t.Logf("VALIDATOR-FAIL C09-BUILD %s: expected coding %d with %d parts, Build returned coding %v with %d parts", desc, best.coding, best.parts, coding, len(parts))
+							t.FailNow()
+						}
+						sig := fmt.Sprintf("%v|%x", coding, parts)
+						if vi == 0 {
+							first = sig
+						} else if sig != first {
+							t.Logf("VALIDATOR-FAIL C09-BUILD %s: the answer depends on the presentation of the candidate set", desc)
+							t.FailNow()
+						}
+						// the parts are those of the single-coding path (proved under C06/C07) for the winning coding
+						if vi == 0 {
+							var ref [][]byte
+							var rerr error
+							if proto == "CMPP" {
+								var rc datacoding.CMPPDataCoding
+								ref, rc, rerr = protocol.EncodeCMPPContentAndSplit(ctx, content, datacoding.CMPPDataCoding(best.coding), 7)
+								if rerr == nil && int(rc) != best.coding {
+									rerr = fmt.Errorf("reference path reported %d", rc)
+								}
+							} else {
+								var rc datacoding.SMPPDataCoding
+								ref, rc, rerr = protocol.EncodeSMPPContentAndSplit(ctx, content, datacoding.SMPPDataCoding(best.coding), 7)
+								if rerr == nil && int(rc) != best.coding {
+									rerr = fmt.Errorf("reference path reported %d", rc)
+								}
+							}
+							if rerr != nil || !reflect.DeepEqual(ref, parts) {
+								t.Logf("VALIDATOR-FAIL C09-BUILD %s: parts differ from the single-coding path for coding %d (%v)", desc, best.coding, rerr)
+								t.FailNow()
+							}
+						}
+					}
+				}
+			}
+		}
+	}
+	// empty requests
+	if _, _, err := protocol.NewBatchDataCodingEncoder().Protocol(protocol.SMPP).Content("", 1).DataCodings([]datacoding.ProtocolDataCoding{datacoding.SMPP_CODING_UCS2}).Build(ctx); err == nil {
+		t.Logf("VALIDATOR-FAIL C09-BUILD empty content accepted")
+		t.FailNow()
+	}
+	if _, _, err := protocol.NewBatchDataCodingEncoder().Protocol(protocol.SMPP).Content("x", 1).Build(ctx); err == nil {
+		t.Logf("VALIDATOR-FAIL C09-BUILD empty candidate list accepted")
+		t.FailNow()
+	}
+	n += 2
+	ok(t, "C09-BUILD", n, fmt.Sprintf("every non-empty subset of the CMPP codings {0,8,9,15} and of the SMPP codings {0,1,3,8,99} x origins x %d contents x 3 presentations (given order, shuffled, shuffled+duplicated under a random GOMAXPROCS 1..16)", len(contents)))
 }
